@@ -43,6 +43,8 @@ static SCHED: Mutex<Sched> = Mutex::new(Sched {
     results: Vec::new(),
 });
 static CV: Condvar = Condvar::new();
+/// set when a worker completed a call without a single scheduled atomic step
+static UNSCHEDULED: std::sync::atomic::AtomicBool = std::sync::atomic::AtomicBool::new(false);
 
 fn lock() -> std::sync::MutexGuard<'static, Sched> {
     SCHED.lock().unwrap_or_else(|e| e.into_inner())
@@ -139,8 +141,15 @@ fn run_threads<O: Sync + ?Sized>(
                 TID.with(|t| t.set(i));
                 let _fin = Finish(i);
                 for c in prog {
+                    let s0 = lock().steps[i];
                     let r = std::panic::catch_unwind(std::panic::AssertUnwindSafe(|| call(obj, *c)));
-                    lock().results[i].push(r.unwrap_or(-777));
+                    let mut g = lock();
+                    if r.is_ok() && g.steps[i] == s0 {
+                        // every API call performs at least one atomic operation: this one never reached
+                        // the scheduler, so the code under test does not use the instrumented atomics
+                        UNSCHEDULED.store(true, std::sync::atomic::Ordering::SeqCst);
+                    }
+                    g.results[i].push(r.unwrap_or(-777));
                 }
             });
         }
@@ -268,7 +277,22 @@ fn run_budget<B: RetryBudget + ?Sized>(
     tr
 }
 
+/// A tree whose budget code does not go through the instrumented atomics (e.g. `use core::sync::atomic`)
+/// cannot be scheduled: its workers run their calls at once, unobserved. The driver says so ([-5]) instead of
+/// printing a trace whose step/response instants mean nothing.
+fn run_checked(s: &[i128]) -> Vec<i128> {
+    UNSCHEDULED.store(false, std::sync::atomic::Ordering::SeqCst);
+    let tr = run(s);
+    if UNSCHEDULED.load(std::sync::atomic::Ordering::SeqCst) {
+        vec![-5]
+    } else {
+        tr
+    }
+}
+
 fn main() {
     tower_resilience_core::verif::set_hook(hook);
-    main_loop(run);
+    // wall-clock time is virtual too: a refill keyed on SystemTime must show like one keyed on Instant
+    VIRT_REALTIME.store(true, std::sync::atomic::Ordering::SeqCst);
+    main_loop(run_checked);
 }
